@@ -46,13 +46,16 @@ OBJECTS = {
              {"gaussianSigmas": "0.5", "useGrids": "on"}),
  "histogram": ("histogram {\n name b\n colvars r\n outputFreq %(outputFreq)s\n histogramGrid {\n  lowerBoundary %(lowerBoundary)s\n  upperBoundary %(upperBoundary)s\n  width %(width)s\n }\n}\n",
                {"outputFreq": "4", "lowerBoundary": "-2.0", "upperBoundary": "2.0", "width": "0.5"}),
- "abmd": ("abmd {\n name b\n colvars r\n refInitVal %(refInitVal)s\n stoppingValue %(stoppingValue)s\n forceConstant %(forceConstant)s\n}\n",
-          {"refInitVal": "0.0", "stoppingValue": "1.0", "forceConstant": "2.0"}),
+ "abmd": ("abmd {\n name b\n colvars r\n stoppingValue %(stoppingValue)s\n forceConstant %(forceConstant)s\n}\n",
+          {"stoppingValue": "1.0", "forceConstant": "2.0"}),
  "alb": ("alb {\n name b\n colvars r\n centers %(centers)s\n updateFrequency %(updateFrequency)s\n forceRange %(forceRange)s\n rateMax %(rateMax)s\n}\n",
          {"centers": "0.5", "updateFrequency": "4", "forceRange": "1.0", "rateMax": "1.0"}),
  "opes": ("opes_metad {\n name b\n colvars r\n newHillFrequency %(newHillFrequency)s\n barrier %(barrier)s\n gaussianSigma %(gaussianSigma)s\n biasfactor %(biasfactor)s\n"
-          " adaptiveSigmaStride %(adaptiveSigmaStride)s\n printTrajectoryFrequency %(printTrajectoryFrequency)s\n}\n",
-          {"newHillFrequency": "2", "barrier": "5.0", "gaussianSigma": "0.3", "biasfactor": "10.0", "adaptiveSigmaStride": "0", "printTrajectoryFrequency": "0"}),
+          " epsilon %(epsilon)s\n kernelCutoff %(kernelCutoff)s\n compressionThreshold %(compressionThreshold)s\n printTrajectoryFrequency %(printTrajectoryFrequency)s\n}\n",
+          {"newHillFrequency": "2", "barrier": "5.0", "gaussianSigma": "0.3", "biasfactor": "10.0", "epsilon": "1e-4", "kernelCutoff": "4.0", "compressionThreshold": "1.0",
+           "printTrajectoryFrequency": "0"}),
+ "opesadapt": ("opes_metad {\n name b\n colvars r\n newHillFrequency 2\n barrier 5.0\n adaptiveSigma on\n adaptiveSigmaStride %(adaptiveSigmaStride)s\n gaussianSigmaMin %(gaussianSigmaMin)s\n}\n",
+               {"adaptiveSigmaStride": "4", "gaussianSigmaMin": "0.01"}),
  "module": ("colvarsTrajFrequency %(colvarsTrajFrequency)s\ncolvarsRestartFrequency %(colvarsRestartFrequency)s\n", {"colvarsTrajFrequency": "2", "colvarsRestartFrequency": "4"}),
 }
 VALUES = ["0", "-1", "1", "2147483648", "4294967296", "1e308", "nan", "inf", "-inf", "1e-300", "", "-2147483649", "0.5"]
@@ -294,6 +297,7 @@ def extra(rep, tier, rng):
     with concurrent.futures.ThreadPoolExecutor(max_workers=12) as ex:
         results = list(ex.map(lambda f: run_one(exe, f), files))
     ncrash = 0; nrej = 0; nacc = 0
+    by_obj = {}
     samples = []
     seen_sig = set()
     for (obj, key, val), f, (rc, out, err) in zip(jobs, files, results):
@@ -305,6 +309,8 @@ def extra(rep, tier, rng):
             nrej += 1
         elif r == ["i0"]:
             nacc += 1
+        bo = by_obj.setdefault(obj, {"accepted": 0, "rejected": 0})
+        bo["accepted" if r == ["i0"] else "rejected"] += 1
         if len(samples) < 4:
             samples.append({"object": obj, "keyword": key, "value": val, "accepted": r == ["i0"], "exit": rc})
         if rc != 0:
@@ -327,6 +333,7 @@ def extra(rep, tier, rng):
     rep.extra["rejected"] = nrej
     rep.extra["accepted"] = nacc
     rep.extra["fatal"] = ncrash
+    rep.extra["by_object"] = by_obj
     rep.extra["process_samples"] = samples
     rep.cov["evaluations"] += len(jobs)
     rep.cov["distinct_nontrivial"] += len(jobs)
